@@ -123,6 +123,16 @@ CLAIMS = {
          "are compared with the all-features build; disabled traits must be refused with `unsupported trait` listing exactly the enabled set.",
          COMMON_NOTE + "rustc's name resolution and lints are observed (all subsets in the thorough tier), not modelled beyond the gate graph; the resolver in the translator (harness/vtool/src/gates.rs) is trusted and fails closed on unresolvable crate paths; cargo's feature unification is emulated by the closure over Cargo.toml's feature table.",
          "Lean 4 theorems (decide +kernel over all cfg configurations of the regenerated gate table; congruence proof over the expansion model) + per-subset rustc builds and subset-vs-full expansion comparison"),
+ "C19": ("(i) templates_closed: over the table of all 280 quote! templates regenerated from /repo/src, every identifier in reference position "
+         "is bound by a template of the same handler (decide +kernel); closed_env_independent / generated_code_env_independent: such a template "
+         "resolves identically in every derive-site environment. (ii) binder_formats_no_clash over the regenerated format_ident! table + "
+         "noClash_sound (two binder formats of one handler never produce the same name from different fields), hasherName_fresh (the hasher type "
+         "parameter is chosen away from the type's generic names). Tie: rustc as oracle - five definition families x all traits x name "
+         "assignments drawn from the templates' identifier inventory, primitive names and binder-collision families, compiled inside a module in "
+         "which every template identifier, prelude name, primitive type, `core`/`std` and macro name means something else, results compared with "
+         "the neutral twin; #![no_std] build; const-parameter probe (known finding).",
+         COMMON_NOTE + "rustc's name resolution is the oracle for the compile half; the reference-position analysis (Names.lean: after `.`/`::`, attributes, binders) is a syntactic approximation validated by the hostile-context runs; one known finding (const parameter named like a generated local) is recorded rather than repaired.",
+         "Lean 4 theorems (decide +kernel over regenerated template and binder-format tables; soundness lemmas) + hostile-naming-context compile-and-run correspondence"),
  "C11": ("Theorems auto_preds_shape / auto_preds_only_collected (automatic mode appends one `FieldTy: Trait` per collected type plus the "
          "supertraits on Self, nothing else), struct_body_delegates_exactly + delegated_types_and_operands (the collected types are exactly the "
          "fields on which the generated PartialEq body calls the trait's own method — two independently written parts linked), "
